@@ -97,9 +97,17 @@ NormExtra == Scalars \cup {VTup(<<VLst(<<VInt(1), VInt(2)>>)>>), VTup(<<VTup(<<V
                            VTup(<<VLst(<<VLst(<<VInt(1)>>)>>)>>), VLst(<<VLst(<<VLst(<<VInt(1)>>)>>)>>)}
 NormCases(u) == {[k |-> "norm", x |-> v] : v \in NormExtra \cup {X(s) : s \in Shapes(2, 2)}}
 
+\* OrderedDicts with keys inserted in non-sorted order: the result keeps that order
+OrdCases(u) == LET S == {s \in Shapes(D, W) : HasWideDict(s)} IN
+    {[k |-> "olift", s |-> s, cd |-> cd] : s \in S, cd \in {<<>>, <<N("same")>>, <<V(VInt(7))>>, <<N("top"), N("deep")>>}}
+    \cup {[k |-> "olib", fn |-> fn[1], s |-> s, menu |-> fn[2], rot |-> 0, cs |-> fn[3]] :
+              s \in S, fn \in {<<"lower", "unary", <<>>>>, <<"split", "spl", <<VStr(" "), VBool(FALSE)>>>>}}
+
 \* the case a description stands for
 CaseOf(d) ==
     CASE d.k = "lift" -> [k |-> "lift", fn |-> "f", x |-> X(d.s), cs |-> [j \in 1..Len(d.cd) |-> CompOf(d.cd[j], d.s)]]
+      [] d.k = "olift" -> [k |-> "lift", fn |-> "f", x |-> Ord(X(d.s)), cs |-> [j \in 1..Len(d.cd) |-> CompOf(d.cd[j], d.s)]]
+      [] d.k = "olib" -> [k |-> "lib", fn |-> d.fn, x |-> Ord(Build(d.s, d.menu, d.rot, 0)), cs |-> d.cs]
       [] d.k = "pair" -> [k |-> "lift", fn |-> "f", x |-> X(d.s), cs |-> <<Same(d.c)>>]
       [] d.k = "lib"  -> [k |-> "lib", fn |-> d.fn, x |-> Build(d.s, d.menu, d.rot, 0), cs |-> d.cs]
       [] OTHER        -> d
@@ -112,7 +120,8 @@ Descs(u) == CASE Part = "lift"  -> LiftCases(0)
            [] Part = "zip"   -> ZipCases(0) \cup NormCases(0)
            [] Part = "pairs" -> PairCases(0)
            [] Part = "wide"  -> LiftOn(Shapes(D, W) \ Shapes(2, 2), FALSE)
-           [] Part = "all"   -> LiftCases(0) \cup DeepCases(0) \cup LibCases(0) \cup ZipCases(0) \cup NormCases(0)
+           [] Part = "ord"   -> OrdCases(0)
+           [] Part = "all"   -> LiftCases(0) \cup DeepCases(0) \cup LibCases(0) \cup ZipCases(0) \cup NormCases(0) \cup OrdCases(0)
 
 ResOf(c) == IF c.k \in {"lift", "lib"} THEN [law |-> Lift(c.fn, c.x, c.cs, FALSE), deep |-> Lift(c.fn, c.x, c.cs, TRUE)] ELSE None
 OutcomeOf(r) == IF HasExc(r) THEN Raises("ValueError") ELSE r          \* = Outcome(..) of Lift.tla
@@ -151,11 +160,15 @@ CompAt(c, x, p, deep) ==
     ELSE LET i == Head(p)
              ci == IF IsSeq(x) THEN SelI(c, Width(x), i, deep) ELSE SelK(c, KeySet(x), Pay(x)[i][1], deep)
          IN  CompAt(ci, Child(x, i), Tail(p), deep)
+\* the node of c that corresponds to path p of x (dicts by key, whatever their order)
+RECURSIVE AtLike(_, _, _)
+AtLike(c, x, p) == IF p = <<>> THEN c
+                   ELSE AtLike(IF IsMap(x) THEN Get(c, Pay(x)[Head(p)][1]) ELSE Pay(c)[Head(p)], Child(x, Head(p)), Tail(p))
 \* lists and tuples match each other; dicts match dicts with the same keys; leaves match leaves
 RECURSIVE Congruent(_, _)
 Congruent(x, c) ==
     IF IsSeq(x) THEN IsSeq(c) /\ Width(c) = Width(x) /\ \A i \in 1..Width(x) : Congruent(Pay(x)[i], Pay(c)[i])
-    ELSE IF IsMap(x) THEN IsMap(c) /\ KeySet(c) = KeySet(x) /\ \A i \in 1..Width(x) : Congruent(Pay(x)[i][2], Pay(c)[i][2])
+    ELSE IF IsMap(x) THEN IsMap(c) /\ KeySet(c) = KeySet(x) /\ \A i \in 1..Width(x) : Congruent(Pay(x)[i][2], Get(c, Pay(x)[i][1]))
     ELSE ~IsCont(c)
 
 ResIsLift == IsL => res.law = Lift(case.fn, case.x, case.cs, FALSE) /\ Want = Outcomes(case.fn, case.x, case.cs)
@@ -167,7 +180,7 @@ LeafWise == IsL => \A deep \in BOOLEAN :
 ScalarsBroadcast == (IsL /\ \A j \in 1..Len(case.cs) : ~IsCont(case.cs[j])) =>
                         \A p \in Paths(case.x) : At(res.law, p) = Apply(case.fn, At(case.x, p), case.cs)
 SameShapeMatches == IsL => \A j \in 1..Len(case.cs) : Congruent(case.x, case.cs[j]) =>
-                        \A deep \in BOOLEAN : \A p \in Paths(case.x) : CompAt(case.cs[j], case.x, p, deep) = At(case.cs[j], p)
+                        \A deep \in BOOLEAN : \A p \in Paths(case.x) : CompAt(case.cs[j], case.x, p, deep) = AtLike(case.cs[j], case.x, p)
 DeepMatchConfined == (IsL /\ \A j \in 1..Len(case.cs) : ~IsCont(case.cs[j]) \/ Congruent(case.x, case.cs[j])) => res.law = res.deep
 \* positional = keyword: the mechanism, for every split of the companions into positional and
 \* keyword ones, gives an outcome of the law - and the same one
